@@ -1,1 +1,164 @@
-/-! C04 — property theorems (stub: nothing proved yet). -/
+import B6.Model.Cells
+import B6.Lemmas.Cells
+/-!
+# C04 — Spatial search never misses or invents a feature its query accepts (combinatorial half)
+
+Model: `B6.Model.Cells` (cell ids as face + child positions; `tokensForCovering`, `rewriteSpatialQuery`,
+`findFeatures` = candidates of the rewritten union filtered by `Matches`).
+
+What is proved (for ALL cell unions, all levels, all feature lists, all `Matches` tables):
+* `spatial_prefilter_sound`   an intersecting (feature cell, query cell) pair always yields a shared token
+                              (repaired code: unconditional);
+* `spatial_prefilter_tight`   a shared token only arises from an intersecting pair (the pre-filter is exact
+                              on coverings, so the candidate set is `coveringsMeet`);
+* `spatial_prefilter_sound_partial` / `level0_counterexample`   the code as found (`Level()==0 → continue`)
+                              is sound only for feature cells of level ≠ 0, and hides a face cell;
+* `never_invents`             results ⊆ indexed features whose `Matches` is true, unconditionally;
+* `mem_findFeatures_iff`      a feature is returned iff `Matches` is true and the coverings meet;
+* `find_exact`                under the S2 covering contract (a true match has intersecting covering cells —
+                              explicit hypothesis, NOT proved: RegionCoverer and all floating point are outside)
+                              the result is exactly `filter Matches`.
+-/
+namespace B6.Props.C04
+open B6.Model.Cells B6.Lemmas.Cells
+
+/-- The covering index is a sound pre-filter: if a feature cell and a query cell intersect (equal, or one
+an ancestor of the other) the feature's tokens and the rewritten query share a token. Repaired code. -/
+theorem spatial_prefilter_sound (F Q : List Cell) (f q : Cell) (hf : f ∈ F) (hq : q ∈ Q)
+    (h : Cell.Intersects f q) :
+    ∃ t, t ∈ tokensForCovering F ∧ t ∈ rewriteSpatialQuery Q := by
+  rcases h with rfl | h | h
+  · exact ⟨Token.s2 f, (s2_mem_tokens false f F).mpr ⟨hf, by simp⟩,
+      (s2_mem_rewrite f Q).mpr ⟨f, hq, Or.inl rfl⟩⟩
+  · exact ⟨Token.s2 f, (s2_mem_tokens false f F).mpr ⟨hf, by simp⟩,
+      (s2_mem_rewrite f Q).mpr ⟨q, hq, Or.inr h⟩⟩
+  · exact ⟨Token.a2 q, (a2_mem_tokens false q F).mpr ⟨f, hf, h⟩, (a2_mem_rewrite q Q).mpr hq⟩
+
+example : ∃ t, t ∈ tokensForCovering [⟨2, []⟩] ∧ t ∈ rewriteSpatialQuery [⟨2, [1, 3]⟩] :=
+  spatial_prefilter_sound [⟨2, []⟩] [⟨2, [1, 3]⟩] ⟨2, []⟩ ⟨2, [1, 3]⟩ (by simp) (by simp) (by decide)
+
+/-- The code as found (level-0 covering cells get no `s2:` token): sound for feature cells of level ≠ 0. -/
+theorem spatial_prefilter_sound_partial (F Q : List Cell) (f q : Cell) (hf : f ∈ F) (hq : q ∈ Q)
+    (h : Cell.Intersects f q) (h0 : f.level ≠ 0) :
+    ∃ t, t ∈ tokensForCoveringWith true F ∧ t ∈ rewriteSpatialQuery Q := by
+  rcases h with rfl | h | h
+  · exact ⟨Token.s2 f, (s2_mem_tokens true f F).mpr ⟨hf, fun ⟨_, e⟩ => h0 e⟩,
+      (s2_mem_rewrite f Q).mpr ⟨f, hq, Or.inl rfl⟩⟩
+  · exact ⟨Token.s2 f, (s2_mem_tokens true f F).mpr ⟨hf, fun ⟨_, e⟩ => h0 e⟩,
+      (s2_mem_rewrite f Q).mpr ⟨q, hq, Or.inr h⟩⟩
+  · exact ⟨Token.a2 q, (a2_mem_tokens true q F).mpr ⟨f, hf, h⟩, (a2_mem_rewrite q Q).mpr hq⟩
+
+example : ∃ t, t ∈ tokensForCoveringWith true [⟨2, [1]⟩] ∧ t ∈ rewriteSpatialQuery [⟨2, [1, 3]⟩] :=
+  spatial_prefilter_sound_partial _ _ ⟨2, [1]⟩ ⟨2, [1, 3]⟩ (by simp) (by simp) (by decide) (by decide)
+
+/-- The full statement for a given variant of the token function. -/
+def prefilter_sound_statement (skip0 : Bool) : Prop :=
+  ∀ (F Q : List Cell) (f q : Cell), f ∈ F → q ∈ Q → Cell.Intersects f q →
+    ∃ t, t ∈ tokensForCoveringWith skip0 F ∧ t ∈ rewriteSpatialQuery Q
+
+theorem prefilter_sound_repaired : prefilter_sound_statement false :=
+  fun F Q f q hf hq h => spatial_prefilter_sound F Q f q hf hq h
+
+/-- The code as found violates it: a feature whose covering is the face cell 2 (a continent-sized area)
+shares no token with a query cell inside that face — the feature is hidden from the query. -/
+theorem level0_counterexample :
+    let F : List Cell := [⟨2, []⟩]
+    let Q : List Cell := [⟨2, [1, 3]⟩]
+    Cell.Intersects ⟨2, []⟩ ⟨2, [1, 3]⟩ ∧
+      shares (tokensForCoveringWith true F) (rewriteSpatialQuery Q) = false ∧
+      findFeaturesWith true (fun _ => true) [((7 : Nat), F)] Q = [] := by
+  decide
+
+theorem prefilter_sound_as_found_fails : ¬ prefilter_sound_statement true := by
+  intro h
+  obtain ⟨t, h1, h2⟩ := h [⟨2, []⟩] [⟨2, [1, 3]⟩] ⟨2, []⟩ ⟨2, [1, 3]⟩ (by simp) (by simp) (by decide)
+  have : shares (tokensForCoveringWith true [⟨2, []⟩]) (rewriteSpatialQuery [⟨2, [1, 3]⟩]) = true :=
+    (shares_iff _ _).mpr ⟨t, h1, h2⟩
+  revert this
+  decide
+
+/-- Conversely a shared token only comes from an intersecting pair: the candidate set is exactly
+"the coverings meet" (holds for both variants of the token function). -/
+theorem spatial_prefilter_tight (skip0 : Bool) (F Q : List Cell) (t : Token)
+    (h1 : t ∈ tokensForCoveringWith skip0 F) (h2 : t ∈ rewriteSpatialQuery Q) :
+    ∃ f ∈ F, ∃ q ∈ Q, Cell.Intersects f q := by
+  cases t with
+  | s2 p =>
+    obtain ⟨hp, _⟩ := (s2_mem_tokens skip0 p F).mp h1
+    obtain ⟨c, hc, h⟩ := (s2_mem_rewrite p Q).mp h2
+    refine ⟨p, hp, c, hc, ?_⟩
+    rcases h with rfl | h
+    · exact Or.inl rfl
+    · exact Or.inr (Or.inl h)
+  | a2 p =>
+    obtain ⟨f, hf, h⟩ := (a2_mem_tokens skip0 p F).mp h1
+    exact ⟨f, hf, p, (a2_mem_rewrite p Q).mp h2, Or.inr (Or.inr h)⟩
+
+example : ∃ f ∈ [(⟨2, [1]⟩ : Cell)], ∃ q ∈ [(⟨2, [1, 3]⟩ : Cell)], Cell.Intersects f q :=
+  spatial_prefilter_tight false _ _ (Token.s2 ⟨2, [1]⟩) (by decide) (by decide)
+
+/-- shared token ⇔ coverings meet (repaired code) -/
+theorem shares_iff_coveringsMeet (F Q : List Cell) :
+    shares (tokensForCovering F) (rewriteSpatialQuery Q) = coveringsMeet F Q := by
+  rw [Bool.eq_iff_iff, shares_iff, coveringsMeet_iff]
+  constructor
+  · rintro ⟨t, h1, h2⟩; exact spatial_prefilter_tight false F Q t h1 h2
+  · rintro ⟨f, hf, q, hq, h⟩; exact spatial_prefilter_sound F Q f q hf hq h
+
+/-- Search never invents: every result is an indexed feature whose own `Matches` is true —
+for both variants, every feature list, every query covering. -/
+theorem never_invents {ι} (skip0 : Bool) (m : ι → Bool) (feats : List (Indexed ι)) (Q : List Cell)
+    (x : Indexed ι) (hx : x ∈ findFeaturesWith skip0 m feats Q) :
+    x ∈ feats.filter (fun f => m f.1) := by
+  simp only [findFeaturesWith, candidates, List.mem_filter] at hx ⊢
+  exact ⟨hx.1.1, hx.2⟩
+
+example : ((1 : Nat), [(⟨2, [1]⟩ : Cell)]) ∈
+    [((1 : Nat), [(⟨2, [1]⟩ : Cell)]), (2, [⟨3, []⟩])].filter (fun f => (fun i => i == 1) f.1) :=
+  never_invents false (fun i => i == 1) _ [⟨2, [1, 3]⟩] _ (by decide)
+
+/-- A feature is returned iff it is indexed, its `Matches` is true and its covering meets the query's. -/
+theorem mem_findFeatures_iff {ι} (m : ι → Bool) (feats : List (Indexed ι)) (Q : List Cell) (x : Indexed ι) :
+    x ∈ findFeatures m feats Q ↔ x ∈ feats ∧ m x.1 = true ∧ coveringsMeet x.2 Q = true := by
+  simp only [findFeatures, findFeaturesWith, candidates, List.mem_filter]
+  rw [show tokensForCoveringWith false x.2 = tokensForCovering x.2 from rfl, shares_iff_coveringsMeet]
+  constructor
+  · rintro ⟨⟨a, b⟩, c⟩; exact ⟨a, c, b⟩
+  · rintro ⟨a, c, b⟩; exact ⟨⟨a, b⟩, c⟩
+
+/-- Search is exact under the covering contract: if every indexed feature the query accepts has a covering
+cell intersecting a query covering cell (S2: covering ⊇ region, for both coverings — assumed), the result
+is exactly the indexed features whose `Matches` is true, in index order. -/
+theorem find_exact {ι} (m : ι → Bool) (feats : List (Indexed ι)) (Q : List Cell)
+    (contract : ∀ x ∈ feats, m x.1 = true → ∃ f ∈ x.2, ∃ q ∈ Q, Cell.Intersects f q) :
+    findFeatures m feats Q = feats.filter (fun f => m f.1) := by
+  simp only [findFeatures, findFeaturesWith, candidates, List.filter_filter]
+  apply List.filter_congr
+  intro x hx
+  rw [show tokensForCoveringWith false x.2 = tokensForCovering x.2 from rfl, shares_iff_coveringsMeet]
+  cases hm : m x.1 with
+  | false => simp
+  | true =>
+    simp only [Bool.true_and]
+    exact (coveringsMeet_iff _ _).mpr (contract x hx hm)
+
+example : findFeatures (fun i => i == 1) [((1 : Nat), [(⟨2, []⟩ : Cell)]), (2, [⟨3, []⟩])] [⟨2, [1, 3]⟩]
+    = [((1 : Nat), [(⟨2, []⟩ : Cell)])] := by decide
+
+/-- The same for the code as found, with the extra hypothesis that carves out the failing class:
+no indexed feature has a level-0 cell in its covering. -/
+theorem find_exact_partial {ι} (m : ι → Bool) (feats : List (Indexed ι)) (Q : List Cell)
+    (noFace : ∀ x ∈ feats, ∀ f ∈ x.2, f.level ≠ 0)
+    (contract : ∀ x ∈ feats, m x.1 = true → ∃ f ∈ x.2, ∃ q ∈ Q, Cell.Intersects f q) :
+    findFeaturesWith true m feats Q = feats.filter (fun f => m f.1) := by
+  simp only [findFeaturesWith, candidates, List.filter_filter]
+  apply List.filter_congr
+  intro x hx
+  cases hm : m x.1 with
+  | false => simp
+  | true =>
+    simp only [Bool.true_and]
+    obtain ⟨f, hf, q, hq, h⟩ := contract x hx hm
+    exact (shares_iff _ _).mpr (spatial_prefilter_sound_partial x.2 Q f q hf hq h (noFace x hx f hf))
+
+end B6.Props.C04
